@@ -300,8 +300,10 @@ func (c connectUnaryServerProtocol) extractProtocolResponseHeaders(statusCode in
 		}
 		endUnmarshaller = func(_ Codec, buf *bytes.Buffer, end *responseEnd) {
 			var wireErr connectWireError
-			if err := json.Unmarshal(buf.Bytes(), &wireErr); err != nil {
-				end.err = connect.NewError(connect.CodeInternal, err)
+			if contentType != contentTypeJSON || json.Unmarshal(buf.Bytes(), &wireErr) != nil {
+				// Not a Connect error: infer the RPC code from the HTTP status.
+				code := httpStatusCodeToRPC(statusCode)
+				end.err = connect.NewError(code, fmt.Errorf("unexpected HTTP error: %d %s", statusCode, http.StatusText(statusCode)))
 				return
 			}
 			end.err = wireErr.toConnectError()
